@@ -91,7 +91,7 @@ example : names (nameAssemblies [{ key := some "Hap1".toList, curated := true, s
 
 /-- `hadd`: single-haplotype map, a haplotype called `additional_haplotig` next to `Haplotig`-tagged scaffolds → both
     assemblies are written to `x.1.additional_haplotigs.curated.agp`.  Real code: the same (checked with
-    `name_assemblies` + `write_assemblies`, /tmp/w5cli/cex.py). -/
+    `name_assemblies` + `write_assemblies`, /verif/lean/tasks/w5cli/cex.py). -/
 example : files (nameAssemblies [{ key := none, curated := true, scaffolds := [sc "S"] },
                                  { key := some "additional_haplotig".toList, curated := true, scaffolds := [sc "A"] },
                                  { key := some sHaplotig, curated := false, scaffolds := [sc "H_1"] }] ['x'] ['1']) =
@@ -266,7 +266,11 @@ example : (runPlan false [] demoPlan).exit = 0 ∧ (runPlan false [] demoPlan).f
 /-- **finding (P2 fails without `hadd`)**: the `additional_haplotig` counter-example end to end — the plan names
     `x.1.additional_haplotigs.curated.agp` twice, so with `--no-clobber` the run dies with "already exists" on a file
     it has just created itself (exit 1, empty directory), and with `--clobber` the second assembly silently replaces
-    the first. -/
+    the first.  REAL CLI (/verif/lean/tasks/w5cli/e2e: three one-contig scaffolds tagged `Painted`, `additional_haplotig`, `Haplotig`;
+    `pretext-to-asm -a in.tpf -p ptx.agp -o out.agp`): prints "Created: 'out.1.additional_haplotigs.curated.agp'" then
+    "Overwrote: 'out.1.additional_haplotigs.curated.agp'", exit 0, the 8000 bp haplotype scaffold is in no output file;
+    with `--no-clobber` in an empty directory: "ERROR: Output file 'out.1.additional_haplotigs.curated.agp' already
+    exists", exit 1. -/
 example :
     let outs : List OutAsm :=
       [{ key := none, curated := true, scaffolds := [sc "S"] },
@@ -283,7 +287,9 @@ example :
 /-- **finding (dict key collision, cf. `C09.name_assemblies_keys_distinct`)**: a haplotype literally called
     `additional_haplotigs` next to `Haplotig`: `ret_asm["additional_haplotigs"]` is assigned twice, the curated
     haplotype assembly is dropped from the dict and written NOWHERE (the plan is duplicate-free, one assembly short).
-    Real code: `name_assemblies` returns keys `[None, 'additional_haplotigs']` only (/tmp/w5cli/cex.py). -/
+    Real code: `name_assemblies` returns keys `[None, 'additional_haplotigs']` only (/verif/lean/tasks/w5cli/cex.py); REAL CLI
+    (/verif/lean/tasks/w5cli/e2e, tags `Painted`, `additional_haplotigs`, `Haplotig`, `-p ptx2.agp`): exit 0, no warning, and
+    SCAFFOLD_2 (the `additional_haplotigs` haplotype) occurs in none of the files written. -/
 example :
     let outs : List OutAsm :=
       [{ key := none, curated := true, scaffolds := [sc "S"] },
